@@ -295,6 +295,11 @@ namespace GeographicLib {
     // 25 = ceil(log_2(2e7)) -- use half circumference here because
     // northing 195e5 is a legal in the "southern" hemisphere.
     static const real eps = ldexp(real(1), -(Math::digits() - 25));
+    // Ensure that x / tile_ and y / tile_ can be converted to ints (NaNs have
+    // been dealt with by the callers)
+    if (!(fabs(x) < real(1e9) && fabs(y) < real(1e9)))
+      throw GeographicErr(string("Easting or northing not in MGRS/")
+                          + (utmp ? "UTM" : "UPS") + " range");
     int
       ix = int(floor(x / tile_)),
       iy = int(floor(y / tile_)),
